@@ -33,6 +33,25 @@ def base_discretizer(case):
                        **dict(case.get("kwargs") or {}))
 
 
+def numeric_ordinal(rng, case):
+    """re-codes the ordinal features' levels as NUMBERS (StringDiscretizer path), the ranking being given in
+    string form and NOT in ascending numeric order (descending or shuffled codes)"""
+    for f in case["features"]:
+        if f["kind"] != "ord":
+            continue
+        order = decs(f["order"])
+        codes = list(range(len(order)))
+        if rng.random() < 0.5:
+            codes.reverse()
+        else:
+            rng.shuffle(codes)
+        flt = rng.random() < 0.4
+        code = {lvl: (float(c) if flt else c) for lvl, c in zip(order, codes)}
+        f["values"] = encs([code.get(v, v) if isinstance(v, str) else v for v in decs(f["values"])])
+        f["order"] = encs([str(c) for c in codes])
+        f["flavour"] = "ordinal_numeric"
+
+
 def positions(members, ref):
     return sorted(i for i, r in enumerate(ref) if any(same(r, x) for x in members))
 
@@ -61,6 +80,8 @@ class C03(Prop):
             c = B.gen_case(rng, B.CLASSES[i % len(B.CLASSES)])
             c["json"] = False
             c["probe_seed"] = rng.randrange(10 ** 9)
+            if i % 3 == 0:
+                numeric_ordinal(rng, c)
             if c["cls"] == "ContinuousCarver" and i % 2 == 0:
                 # fractional target whose per-modality means lie within one unit (ratios)
                 c["y"] = [v / 16 for v in c["y"]]
@@ -151,6 +172,39 @@ class C03(Prop):
                         pr.append([c_, lab_rank[kk]])
                     rec["probes"] = [[enc(c_), r] for c_, r in pr]
                     rec["state"], rec["cells"], rec["outs"] = st, encs(cells), outs[nm]
+            else:
+                # every training value (raw form) must come out with the label of the group holding it; along
+                # an ordinal ranking the output rank is then non-decreasing
+                cells = []
+                for v in decs(f["values"]):
+                    if not C.is_nan(v) and not any(type(v) is type(w) and same(v, w) for w in cells):
+                        cells.append(v)
+                outs, exc = B.run_transform(obj, B.probe_frame(case, nm, cells), [nm])
+                if isinstance(outs[nm], str):
+                    rec["issues"].append(f"transform of the training values raised {outs[nm]}: {exc}")
+                else:
+                    leaders = list(vo)
+                    lab_rank = {B_key(obj.labels_per_values[nm][k]): r for r, k in enumerate(leaders)}
+                    got = []
+                    for c_, o_ in zip(cells, decs(outs[nm])):
+                        holder = [r for r, k in enumerate(leaders)
+                                  if any(type(c_) is type(w) and same(c_, w) for w in vo.content[k])]
+                        r_out = lab_rank.get(B_key(o_)) if not C.is_nan(o_) else None
+                        if len(holder) != 1 or r_out != holder[0]:
+                            rec["issues"].append(f"training value {c_!r} belongs to group(s) {holder} but transform "
+                                                 f"gives {o_!r} (group {r_out})")
+                            break
+                        got.append((c_, r_out))
+                    if kind == "ord" and not rec["issues"]:
+                        ref_s = [str(x) for x in decs(f["order"])]
+
+                        def pos(v):
+                            t = str(int(v)) if isinstance(v, float) and v.is_integer() else str(v)
+                            return ref_s.index(t) if t in ref_s else None
+                        along = sorted((pos(c_), r) for c_, r in got if pos(c_) is not None)
+                        if any(a[1] > b[1] for a, b in zip(along, along[1:])):
+                            rec["issues"].append(f"transform is not monotone along the ranking: (position, group) "
+                                                 f"{along}")
             feats.append(rec)
         if not feats:
             return {"skip": "no feature kept by both the object and the base discretizer"}
